@@ -2,7 +2,7 @@
 import itertools
 
 from mc import kernel
-from props.corolib import CoroDriver, script_from_yields
+from props.corolib import CoroDriver, script_from_yields, RET
 
 RULE = ('E1 breadth-first search to fixpoint (scripts are finite, every '
         'branch ends in quiescence) on a real CoroutineProcessor: start of a '
@@ -26,6 +26,16 @@ def scripts(yields, max_len, spawn):
     return out
 
 
+def inbody_restart_set():
+    """A sleeper, a coroutine that kills and restarts it from inside its
+    body and then waits itself, and one more waiter: the wait heap is edited
+    while process() is running."""
+    sleeper = script_from_yields((2, None))
+    restarter = (((('kill', 0), ('start', 0)), 1), ((), None), ((), RET))
+    waiter = script_from_yields((None, 1))
+    return (sleeper, restarter, waiter)
+
+
 def drivers(tier):
     if tier == 'quick':
         fam = scripts((None, 0, -1, 1, 2), 3, spawn=((), (1,)))
@@ -43,6 +53,10 @@ def drivers(tier):
                     script_from_yields(seq) for seq in
                     ((1,), (2,), (1, None), (None, 1))],
                     dts=(1, 2), max_started=3, outside_kill=True),
+                    dict(max_states=400000, time_budget=300)),
+                'timing-inbody-restart': (CoroDriver(
+                    'timing-inbody-restart', inbody_restart_set(),
+                    dts=(1, 2), max_started=3, fixed=True),
                     dict(max_states=400000, time_budget=300))}
     fam = scripts((None, 0, -1, 0.5, 1, 2), 3, spawn=((), (1,), (None, 2)))
     fam3 = scripts((None, -1, 0.5, 1, 2), 2, spawn=((1,),))
@@ -57,6 +71,10 @@ def drivers(tier):
             script_from_yields(seq) for seq in
             ((0.5,), (1,), (2,), (1, None), (None, 1), (None, 2), (1, 1))],
             dts=(0.5, 1, 2), max_started=3, outside_kill=True),
+            dict(max_states=3000000, time_budget=3000)),
+        'timing-inbody-restart': (CoroDriver(
+            'timing-inbody-restart', inbody_restart_set(),
+            dts=(0.5, 1, 2), max_started=3, fixed=True, outside_kill=True),
             dict(max_states=3000000, time_budget=3000)),
     }
 
